@@ -16,7 +16,7 @@ RULE = ("twin worlds from the same pre-state: world A evaluates call_batch(kwarg
 ASSUMPTIONS = ["exceptions are compared by class and original message", "stores are compared as sets of (qualified name, argument hash, result type, value, invocation list)"]
 COMPONENTS = {"real": ["call_batch / map_over_range, LocalRunnerBackend.batch_run, runner, storage backends", "fork lifetimes"],
               "stub": ["generated program", "uuid4, clock"]}
-REACH = ["with_read_fault", "with_transient_failures", "one_shot_iterable_range", "with_warm_elements", "batches", "map_over_range", "raise_first", "with_failing_element", "with_duplicates", "with_prememoized", "empty_batches",
+REACH = ["under_context_arguments", "with_read_fault", "with_transient_failures", "one_shot_iterable_range", "with_warm_elements", "batches", "map_over_range", "raise_first", "with_failing_element", "with_duplicates", "with_prememoized", "empty_batches",
          "partial_prefix", "restart_before_batch"]
 
 
@@ -46,7 +46,9 @@ def gen_case(seed):
         cand = [x for x in xs if x in pre]
         if cand:
             rfx = cand[rng.randrange(len(cand))]     # the stored memento of this element cannot be read once (reported I/O error)
-    return {"seed": seed, "prog": prog, "xs": xs, "via": via, "shape": shape, "read_fault_x": rfx, "raise_first": rng.random() < 0.5, "pre": pre, "warm": warm,
+    ctx = rng.choice([None, None, None, {"k": 1}, {"k": 2, "j": "a"}])      # the batch is issued through a clone with context arguments
+    return {"seed": seed, "prog": prog, "xs": xs, "via": via, "shape": shape, "read_fault_x": rfx, "ctx": ctx,
+            "pre_via": rng.choice(["same", "same", "plain"]), "raise_first": rng.random() < 0.5, "pre": pre, "warm": warm,
             "cache": rng.random() < 0.6, "restart": rng.random() < 0.5, "backend": rng.choice(["fs", "fs", "memory"])}
 
 
@@ -93,12 +95,15 @@ def run_world(root, case, world_name):
             f = getattr(mod, prog["nodes"][0]["name"])
             if two:
                 f = f.partial(y=7)
+            f_plain = f
+            if case.get("ctx"):
+                f = f.with_context_args(dict(case["ctx"]))
             do_pre = first
             do_batch = (not first) or not (case["restart"] and case["backend"] != "memory")
             if do_pre:
                 for x in case["pre"]:
                     try:
-                        f(x=x)
+                        (f_plain if case.get("pre_via") == "plain" else f)(x=x)
                     except Exception:  # noqa
                         pass
                 side.take()
@@ -218,6 +223,10 @@ def execute(case):
         transient = set(case["prog"]["nodes"][0].get("transient") or [])
         if transient & set(xs):
             stats["with_transient_failures"] = 1
+        if case.get("ctx"):
+            stats["under_context_arguments"] = 1
+            if case.get("pre_via") == "plain":
+                transient = transient | {"context"}     # what was memoized through the plain function is another identity: single calls are the reference
         if A.get("read_faults_fired") or B.get("read_faults_fired"):
             stats["with_read_fault"] = 1
             transient = transient | {"read-fault"}      # a stored element that cannot be read is evaluated again: single calls are the reference
